@@ -124,6 +124,8 @@ type Knobs struct {
 	SnapCount  uint64 `json:"snap_count"`
 	CatchUpN   uint64 `json:"catch_up_n"`
 	SegmentKiB int    `json:"segment_kib"`
+	// LargeValues: the clients' values are several hundred KB each (fault-free runs)
+	LargeValues bool `json:"large_values,omitempty"`
 	MaxSteps   int    `json:"max_steps"`
 	// StaggerMS[i] is the start offset of node i+1 (distinct modulo the tick).
 	StaggerMS []int `json:"stagger_ms"`
